@@ -835,6 +835,22 @@ def special_c07(res, tier, seed, workdir, stats):
 
 
 CORE_LEAN = os.path.join(hh.LEAN, "HH", "Generated", "PortableCore.lean")
+def advisory(fn):
+    """a translation stage never decides a property: any failure to RUN it (tool crash, unexpected output) is recorded as
+    'not executed' in the evidence and must not surface as an internal error of the check"""
+    import functools
+
+    @functools.wraps(fn)
+    def wrapped(res, *a, **kw):
+        try:
+            return fn(res, *a, **kw)
+        except Exception as e:  # noqa: BLE001
+            import traceback
+            res.notes.append(f"advisory stage {fn.__name__} not executed: {type(e).__name__}: {str(e)[:160]}")
+            res.cov.setdefault("advisory_stage_errors", []).append(dict(stage=fn.__name__, error=traceback.format_exc()[-600:]))
+    return wrapped
+
+
 CORE_THMS = {"module_reduction": ["moduleReduction_eq"], "permute": ["permute_eq"], "zipper_merge_and_add": ["zipperPair_eq"],
              "update": ["update_eq"], "update_lanes": ["updateLanes_eq"], "new": ["newState_eq"], "finalize64": ["out64_eq", "finalize64_shape"],
              "finalize128": ["out128_eq", "finalize128_shape"], "finalize256": ["out256_eq", "finalize256_shape"],
@@ -845,6 +861,7 @@ CORE_THMS = {"module_reduction": ["moduleReduction_eq"], "permute": ["permute_eq
              "from_checkpoint": [f"fromCheckpoint{n}_eq" for n in range(32)]}
 
 
+@advisory
 def core_translation(res, tier, seed, workdir, stats, pid="C01", only=None):
     """second tie for the arithmetic core of C01: `coregen` (syn, symbolic execution of straight-line code) translates
     module_reduction, permute, zipper_merge_and_add, update, update_lanes, the key schedule of new, the round counts /
@@ -916,6 +933,7 @@ SIMD_SRC = {"x86": "src/x86/sse.rs + v2x64u.rs and src/x86/avx.rs + v4x64u.rs", 
             "wasm": "src/wasm.rs (WasmHash, its V2x64U and the emulated _mm_* helpers)"}
 
 
+@advisory
 def simd_translation_for(which, pid, res, tier, seed, workdir, stats, escalate):
     """second tie for the straight-line intrinsic code of a SIMD back end: `simdgen` interprets the back end's source
     symbolically (newtype erased, operators resolved through the wrapper's own trait and inherent impls, free helper
@@ -983,6 +1001,7 @@ SKEL_LEAN = os.path.join(hh.LEAN, "HH", "Generated", "Skeleton.lean")
 SKEL_TAGS = {"PortableHash": "portable", "SseHash": "sse", "AvxHash": "avx", "NeonHash": "neon", "WasmHash": "wasm"}
 
 
+@advisory
 def skeleton_translation(res, tier, seed, workdir, stats, pid="C05"):
     """tie of the CONTROL SKELETON that C05's buffering theorem is about: `skelgen` translates `append` (data of symbolic
     length: the buffer test, the chunk loop as `absorb`, fill / set_to / inner as their Pkt models, `update(data_to_lanes(..))`
@@ -1039,6 +1058,7 @@ def skeleton_translation(res, tier, seed, workdir, stats, pid="C05"):
 LADDER_LEAN = os.path.join(hh.LEAN, "HH", "Generated", "Ladder.lean")
 
 
+@advisory
 def ladder_translation(res, tier, seed, workdir, stats):
     """tie of C10's selection model to the text of src/builder.rs: `ladgen` translates the cfg/run-time ladders of
     HighwayHasher::new and ::from_checkpoint into decision functions Cfg -> Cpu -> Option Backend, and extracts the union
